@@ -73,6 +73,15 @@ pub fn run_param(case: &Value) -> Value {
                     "build" => { let r = b.build(); obs.push(json!({"k": "res", "ok": r.is_ok()})); if let Ok(c) = r { circs.push(c); } else { circs.push(Circuit::new(n)); } }
                     "build_final" => { let r = b.build_final(); obs.push(json!({"k": "res", "ok": r.is_ok()})); if let Ok(c) = r { circs.push(c); } else { circs.push(Circuit::new(n)); } }
                     "exec" => obs.push({ let mut s = state_json(circs[vu(&o["c"])].execute(&probe)); s["k"] = json!("state"); s }),
+                    // export of a built circuit NOW, next to the export of a freshly assembled circuit holding the same gates (same
+                    // parameter cells): both must show the parameters' current values, so the two texts must be equal
+                    "export" => {
+                        let c = &circs[vu(&o["c"])];
+                        let t1 = c.to_qasm(None::<std::path::PathBuf>).map_err(|e| format!("{:?}", e));
+                        let fresh = Circuit::with_gates(c.get_gates().to_vec(), c.get_num_qubits());
+                        let t2 = fresh.map_err(|e| format!("{:?}", e)).and_then(|f| f.to_qasm(None::<std::path::PathBuf>).map_err(|e| format!("{:?}", e)));
+                        obs.push(json!({"k": "export", "same_as_fresh": t1 == t2, "ok": t1.is_ok(), "text": t1.unwrap_or_default()}));
+                    }
                     x => return json!({"r": "harness_error", "e": format!("param op {}", x)}),
                 }
             }
